@@ -204,6 +204,21 @@ func (fx *FX) execAppend(st *State, v ssa.Value, c *ssa.CallCommon, pos token.Po
 		st.H = fx.def("H", sto(st.H, resRef, resArr))
 		// sequence-level consequence of the element-wise facts: the result is old ++ src
 		fx.assume(tTrue, eq(app(SSeq, "view", resArr, ite(fits, dst.Off, num(0)), newLen), app(SSeq, "cat", oldView, srcSeq)))
+	} else if src, isSl := args[1].(VSlice); isSl && n.S == "1" && esz == 1 && len(layout(dst.Elem)) == 1 && layout(dst.Elem)[0].kind == lkStr {
+		// append(s, x) for a []string: the element lands at index len(s), in place or in a fresh copy of s.
+		// The result's backing array is a fresh constant related to the old one by two-way triggered axioms, so that
+		// facts about old elements carry over in both directions (needed for "every visited key is in the list").
+		elem := fx.def("appelem", sel(sel(st.Hs, src.Ref), src.Off))
+		oldS := fx.def("appsold", sel(st.Hs, dst.Ref))
+		resS := fx.fresh("appsres", SSArr)
+		pos0 := fx.def("appspos", add(dst.Off, dst.Len))
+		fx.line(fmt.Sprintf("(assert (=> %s (forall ((k!a Int)) (! (=> (not (= k!a %s)) (= (select %s k!a) (select %s k!a))) :pattern ((select %s k!a)) :pattern ((select %s k!a))))))",
+			fits.S, pos0.S, resS.S, oldS.S, resS.S, oldS.S))
+		fx.line(fmt.Sprintf("(assert (=> (not %s) (forall ((k!a Int)) (! (=> (and (<= 0 k!a) (< k!a %s)) (= (select %s k!a) (select %s (+ %s k!a)))) :pattern ((select %s k!a)) :pattern ((select %s (+ %s k!a)))))))",
+			fits.S, dst.Len.S, resS.S, oldS.S, dst.Off.S, resS.S, oldS.S, dst.Off.S))
+		fx.assume(tTrue, eq(sel(resS, ite(fits, pos0, dst.Len)), elem))
+		resRef := fx.def("appref", ite(fits, dst.Ref, fr))
+		st.Hs = fx.def("Hs", sto(st.Hs, resRef, resS))
 	} else {
 		fx.note("append of non-byte elements: written region havocked")
 		resRef := fx.def("appref", ite(fits, dst.Ref, fr))
